@@ -106,6 +106,16 @@ var handPairs = []handPair{
 		new: map[string]string{"a.thrift": "service S {\n  void m() throws (),\n  void n(),\n}\n"},
 	},
 	{
+		name: "middle implicit variant removed, later variant shifts onto its number", sig: "C18:missed-breaking:remove-enum-value:later-variants-shift", wantFail: true, root: "a.thrift",
+		old: map[string]string{"a.thrift": "enum Color {\n  RED,\n  GREEN,\n  BLUE,\n}\n"},
+		new: map[string]string{"a.thrift": "enum Color {\n  RED,\n  BLUE,\n}\n"},
+	},
+	{
+		name: "variant keeps its name, changes its number", sig: "C18:missed-breaking:renumber-enum-value", wantFail: true, root: "a.thrift",
+		old: map[string]string{"a.thrift": "enum Color {\n  RED = 0,\n  GREEN = 1,\n}\n"},
+		new: map[string]string{"a.thrift": "enum Color {\n  RED = 0,\n  GREEN = 5,\n}\n"},
+	},
+	{
 		name: "last default field removed", sig: "C18:missed-breaking:remove-field", wantFail: true, root: "a.thrift",
 		old: map[string]string{"a.thrift": "struct S {\n  1: i32 a,\n  2: optional i32 b,\n  3: string c,\n}\n"},
 		new: map[string]string{"a.thrift": "struct S {\n  1: i32 a,\n  2: optional i32 b,\n}\n"},
